@@ -10,6 +10,8 @@ mod finality_tracker;
 mod parent_ready_tracker;
 mod slot_state;
 mod sorted_vec;
+#[cfg(feature = "verif-hooks")]
+pub mod verif;
 
 use std::collections::BTreeMap;
 use std::ops::RangeBounds;
